@@ -77,15 +77,18 @@ func zzH_lcpTable() {
 		ok = verifAnd(ok, int(sa[inv[i]]) == i)
 	}
 	verifAssert(ok, "InvertSA is not the inverse permutation [C09]")
-	mode := verifChoose("mode", 2)
+	mode := verifChoose("mode", 2+verifParamOr("withSort", 0))
 	lcp := make([]int32, n)
 	for i := range lcp {
 		lcp[i] = int32(verifU32(verifName("junk", i)))
 	}
-	if mode == 0 {
+	switch mode {
+	case 0:
 		LCP(t, sa, inv, lcp)
-	} else {
+	case 1:
 		LCP(t, sa, nil, lcp) // sainv computed internally
+	default:
+		LCP(t, nil, nil, lcp) // sa computed internally by the real Sort
 	}
 	good := true
 	for j := 0; j < n; j++ {
